@@ -519,7 +519,7 @@ func run(c Case) vt.Verdict {
 func TestProp(t *testing.T) {
 	vt.Main(t, vt.Spec[Case]{
 		ID:           "C06",
-		Rule:         "rapid-generated cases: configuration of 1-7 nodes, a call kind among all that take a per-node function plus plain quorum/async/correctable calls, multicast and unicast; the per-node function as a table node -> skip | tag | node-specific payload (skip none/some/all, distinct payloads per node); WithNoSendWaiting on/off; every handler blocked while the call is made; optionally an idle target whose dial blocks; oracle: delivery multiset per server equals f(request, id) exactly once for targeted reachable nodes and nothing for skipped ones (after a fence RPC per node), one-way calls return while all handlers are blocked (and while the dial is blocked with no-send-waiting), two-way calls complete by the non-skipped nodes alone with Incomplete accounting over the non-skipped nodes; non-trivial = a per-node function with a skip or two distinct per-node messages, or a one-way call behind blocked handlers",
+		Rule:         "rapid-generated cases: configuration of 1-7 nodes, a call kind among all that take a per-node function plus plain quorum/async/correctable calls, multicast and unicast; the per-node function as a table node -> skip | tag | node-specific payload (skip none/some/all, distinct payloads per node); WithNoSendWaiting on/off; every handler blocked while the call is made; optionally an idle target whose dial blocks; oracle: delivery multiset per server equals f(request, id) exactly once for targeted reachable nodes and nothing for skipped ones (after a fence RPC per node), one-way calls return while all handlers are blocked (and while the dial is blocked with no-send-waiting), two-way calls complete by the non-skipped nodes alone with Incomplete accounting over the non-skipped nodes; a second case shape (1 in 6): K one-way messages with contexts that never end are sent to nodes whose handlers block without Release, then 1-24 other calls of 6 kinds on the same nodes end by their context (already ended when the call is made; or, 1 in 8, large requests cancelled microseconds after being issued), then the handlers are released and a fence RPC per node completes - every message must have been delivered exactly once; non-trivial = a per-node function with a skip or two distinct per-node messages, or a one-way call behind blocked handlers, or any case of the second shape",
 		Gen:          gen,
 		Run:          run,
 		TrackCurrent: true,
